@@ -37,6 +37,7 @@ type Query {
   span(r: Range): String
   chief: Keeper
   blob(j: Json): String
+  tagged(filter: Filter): String
 }
 scalar Json
 type Mutation {
@@ -95,7 +96,7 @@ input Range {
 }
 input Filter {
   minAge: Int = 0
-  names: [String]
+  names: [String] = ["anna", "bert"]
   size: Size
   tag: ID
   limit: Int = 10
@@ -519,6 +520,22 @@ func (d *Dog) Call(prefix, suffix string) string { return prefix + d.Name + suff
 // Call is the reflection method behind Bird.call.
 func (b *Bird) Call(prefix, suffix string) string { return prefix + b.Name + suffix }
 
+// Tagged is the reflection method behind Query.tagged: a resolver that edits the
+// argument it was given in place (the arguments belong to the request) and
+// answers with the result.
+func (q *Query) Tagged(filter *FilterIn) (string, error) {
+	if _, err := q.tr.enter("Query", "tagged", nil, ""); err != nil {
+		return "", err
+	}
+	if filter == nil {
+		return "none", nil
+	}
+	if len(filter.Names) > 0 {
+		filter.Names[0] += "+"
+	}
+	return strings.Join(filter.Names, ","), nil
+}
+
 // Pick is the reflection method behind Query.pick.
 func (q *Query) Pick(i int64) (interface{}, error) {
 	if _, err := q.tr.enter("Query", "pick", map[string]interface{}{"i": i}, ""); err != nil {
@@ -743,6 +760,27 @@ func zooField(q *Query, obj interface{}, name string, args map[string]interface{
 			return span(args["r"]), nil
 		case "blob":
 			return CanonLite(args["j"]), nil
+		case "tagged":
+			switch f := args["filter"].(type) {
+			case *FilterIn:
+				return o.Tagged(f)
+			case map[string]interface{}:
+				l, _ := f["names"].([]interface{})
+				if len(l) > 0 {
+					if s0, ok := l[0].(string); ok {
+						l[0] = s0 + "+"
+					}
+				}
+				out := ""
+				for i, x := range l {
+					if i > 0 {
+						out += ","
+					}
+					out += CanonLite(x)
+				}
+				return out, nil
+			}
+			return "none", nil
 		case "join":
 			l, _ := args["words"].([]interface{})
 			out := ""
